@@ -105,6 +105,8 @@ CAND_MON = {
 
 LEVEL = {p: 'model_checking' for p in list(SEQ) + list(CONCUR) + list(CAND)}
 LEVEL.update({p: 'fault_enumeration' for p in FAULT})
+SURFACE = ('C14', 'C16')
+LEVEL.update({p: 'exploration' for p in SURFACE})
 
 RULES = {
     'C01': 'distinct (allocation-writing request, outcome, inventories, allocations before) whose outcome (204/409) is decided by the inventory / unit / capacity checks',
@@ -610,7 +612,68 @@ def run_cand_model(prop, tier):
     return {'model': 'MC_Cand.cfg', 'transitions': gen, 'states': dist, 'wall_s': round(wall, 1)}
 
 
+def run_surface(prop, tier, seed, model=True):
+    import multiprocessing as mp
+    from pv import surface
+    t0 = time.time()
+    rules = sorted(set(surface.RULE_OF.values()) - {'none'})
+    jobs = []
+    if prop == 'C14':
+        jobs = [{'part': 'routes', 'seed': seed, 'tier': tier, 'rules': []},
+                {'part': 'features', 'seed': seed, 'tier': tier, 'rules': []}]
+    else:
+        nw = 12
+        for w in range(nw):
+            rs = rules[w::nw]
+            jobs.append({'part': 'policy', 'seed': seed * 17 + w, 'tier': tier, 'rules': rs,
+                         'with_default': w == 0})
+    ctx = mp.get_context('spawn')
+    try:
+        with ctx.Pool(len(jobs)) as pool:
+            results = pool.map(surface.worker, jobs, chunksize=1)
+    except tlc.TLCError as ex:
+        raise Machinery(str(ex))
+    n = sum(r['n'] for r in results)
+    if n == 0:
+        raise Machinery('no probe was issued')
+    violations, known = [], []
+    for r in results:
+        for bad in r['bad']:
+            mons = [m for m in bad['monitors'] if m.startswith(prop)]
+            if not mons:
+                continue
+            sig = {'engine': 'surface', 'kind': bad['kind'], 'monitors': ','.join(mons),
+                   'status': bad.get('status', 0),
+                   'tag': 'unknown-route' if bad.get('route') and bad['route'] not in surface.ROUTES else ''}
+            if bad['kind'] == 'route':
+                why = '%s: %s %s at version %s (%s) answered %s' % (','.join(mons), bad['method'], bad['route'], bad['v'], bad['vkind'], bad['status'])
+            elif bad['kind'] == 'feature':
+                why = '%s: feature %s at 1.%d observed %s' % (','.join(mons), bad['fid'], bad['v'], 'present' if bad['present'] else 'absent')
+            else:
+                why = '%s: %s %s as %s (override %s %s) answered %s' % (','.join(mons), bad['method'], bad['route'], bad['caller'], bad['ovrule'] or '-', bad['ovkind'] or '-', bad['status'])
+            f = findings.lookup(prop, sig)
+            if f:
+                known.append((f, why))
+            else:
+                violations.append((bad, why, sig))
+    if prop == 'C14':
+        rule = ('every (route, method) of the routing table plus unknown paths and undeclared methods x all 40 microversions, "latest", no header and out-of-range versions; '
+                'every one of the 48 versioned features probed at all 40 microversions; distinct non-trivial = all probes (each is a distinct table cell)')
+    else:
+        rule = ('every (route, method) x 7 caller classes under the default policy, and for every documented rule the overrides "@" (everyone) and "!" (nobody) on the '
+                'operations of that rule plus sampled other operations (thorough: all operations); each probe from a restored snapshot with a table dump afterwards')
+    cov = {'evaluations': n, 'distinct_nontrivial': n, 'rule': rule,
+           'samples': [r['sample'][0] for r in results if r['sample']][:3],
+           'exhaustive': True,
+           'structural_laws_checked_by_TLC': 'Surface!Laws (unique operations, window shapes, feature windows upward closed, one rule per operation, policy monotone in roles, only admin/service by default)'}
+    return finish(prop, tier, seed, cov, violations, known, t0, [
+        'the tables of spec/Surface.tla were transcribed from rest_api_version_history.rst, the api-ref and the policy documentation; TLC is the oracle and checks their structural laws, the exploration is a complete enumeration of a finite table by the harness',
+        'noauth2 middleware stands in for keystone (roles from x-roles, project from the token)'])
+
+
 def run_check(prop, tier, seed, model=True):
+    if prop in SURFACE:
+        return run_surface(prop, tier, seed, model=model)
     if prop in CAND:
         return run_cand(prop, tier, seed, model=model)
     if prop in FAULT:
